@@ -19,6 +19,22 @@ COMMON_ASSUMPTIONS = [
 
 # rule group -> properties whose statement the rules of that group encode
 GROUP_PROPS = {
+    'C07': dict(rule='3 stream kinds x 3 programs (echo, burst, idle handler) x cancellation after every prefix of the client program x {explicit cancel, deadline expiry on the virtual clock} x bystander calls; cancellation with 0..5 responses queued unread; every scenario continues with a later Recv, a later Send and a probe call; non-trivial = contains a cancel or a deadline', nontrivial_ops=['cancel', 'adv'], assumptions=COMMON_ASSUMPTIONS, models=[]),
+    'C09': dict(rule='client read failure after every prefix of the response sequence of 4 base conversations x write side {writable, failing}, followed by calls started after the failure; calls parked in the failure-check -> registration window (gate mux.call.window) while the failure lands; non-trivial = contains a client read fault', nontrivial_ops=['fault'], assumptions=COMMON_ASSUMPTIONS, models=[]),
+    'C10': dict(rule='connection end by {read failure, write failure, Stop} with u unary and s streaming handlers in flight parked in {receive, context wait, blocked send}; end at every step of a mixed conversation; non-trivial = contains a server-side fault', nontrivial_ops=['fault'], assumptions=COMMON_ASSUMPTIONS, models=[]),
+    'C11': dict(rule='handlers returning after k of n client messages (all 0<=k<n<=4 quick / 8 thorough) with all messages delivered before the return; callers cancelling with m responses unread; raw servers over-answering a unary call; each with bystander calls and a probe call with a one-hour virtual deadline; non-trivial = contains an abandonment (early handler return, cancel, extra reply)', nontrivial_ops=['hop', 'cancel', 'inj'], assumptions=COMMON_ASSUMPTIONS, models=[]),
+    'C12': dict(rule='raw client injecting envelope sequences over an alphabet of 25 shapes x 2 ids (length 1 exhaustive, length 2 exhaustive in the thorough tier / sampled in quick, random longer sequences up to 40), each followed by a valid unary and a valid streaming probe; non-trivial = injects at least one envelope', nontrivial_ops=['inj'], assumptions=COMMON_ASSUMPTIONS, models=[]),
+    'C13': dict(rule='raw server injecting response sequences over an alphabet of 18 shapes x {id of the unary call, id of the stream, unknown id} into a real client with a unary call and a stream outstanding (length 1 exhaustive, length 2 exhaustive/sampled, random longer), then closing the connection; with and without a stats handler; non-trivial = injects at least one envelope', nontrivial_ops=['inj'], assumptions=COMMON_ASSUMPTIONS, models=[]),
+    'C03': dict(
+        rule='all 17 codes x error kinds (status, wrapped status, plain, context errors) for unary calls; error at '
+             'position 0/1/2 for the three stream kinds; OK-coded non-nil error; foreign-peer replies through a raw '
+             'server (explicit OK status + body, status without trailer metadata, reset envelopes); the late-body vs '
+             'trailer schedule forced through the srv.writer.window gate; non-trivial = a handler returns or a raw '
+             'reply is injected',
+        nontrivial_ops=['ucall', 'sopen'],
+        assumptions=COMMON_ASSUMPTIONS,
+        models=[],
+    ),
     'md': {'C04'},
     'status': {'C03'},
     'ids': {'C05'},
@@ -95,6 +111,22 @@ def count_nontrivial(P, scens, traces):
 
 
 PROPS = {
+    'C07': dict(rule='3 stream kinds x 3 programs (echo, burst, idle handler) x cancellation after every prefix of the client program x {explicit cancel, deadline expiry on the virtual clock} x bystander calls; cancellation with 0..5 responses queued unread; every scenario continues with a later Recv, a later Send and a probe call; non-trivial = contains a cancel or a deadline', nontrivial_ops=['cancel', 'adv'], assumptions=COMMON_ASSUMPTIONS, models=[]),
+    'C09': dict(rule='client read failure after every prefix of the response sequence of 4 base conversations x write side {writable, failing}, followed by calls started after the failure; calls parked in the failure-check -> registration window (gate mux.call.window) while the failure lands; non-trivial = contains a client read fault', nontrivial_ops=['fault'], assumptions=COMMON_ASSUMPTIONS, models=[]),
+    'C10': dict(rule='connection end by {read failure, write failure, Stop} with u unary and s streaming handlers in flight parked in {receive, context wait, blocked send}; end at every step of a mixed conversation; non-trivial = contains a server-side fault', nontrivial_ops=['fault'], assumptions=COMMON_ASSUMPTIONS, models=[]),
+    'C11': dict(rule='handlers returning after k of n client messages (all 0<=k<n<=4 quick / 8 thorough) with all messages delivered before the return; callers cancelling with m responses unread; raw servers over-answering a unary call; each with bystander calls and a probe call with a one-hour virtual deadline; non-trivial = contains an abandonment (early handler return, cancel, extra reply)', nontrivial_ops=['hop', 'cancel', 'inj'], assumptions=COMMON_ASSUMPTIONS, models=[]),
+    'C12': dict(rule='raw client injecting envelope sequences over an alphabet of 25 shapes x 2 ids (length 1 exhaustive, length 2 exhaustive in the thorough tier / sampled in quick, random longer sequences up to 40), each followed by a valid unary and a valid streaming probe; non-trivial = injects at least one envelope', nontrivial_ops=['inj'], assumptions=COMMON_ASSUMPTIONS, models=[]),
+    'C13': dict(rule='raw server injecting response sequences over an alphabet of 18 shapes x {id of the unary call, id of the stream, unknown id} into a real client with a unary call and a stream outstanding (length 1 exhaustive, length 2 exhaustive/sampled, random longer), then closing the connection; with and without a stats handler; non-trivial = injects at least one envelope', nontrivial_ops=['inj'], assumptions=COMMON_ASSUMPTIONS, models=[]),
+    'C03': dict(
+        rule='all 17 codes x error kinds (status, wrapped status, plain, context errors) for unary calls; error at '
+             'position 0/1/2 for the three stream kinds; OK-coded non-nil error; foreign-peer replies through a raw '
+             'server (explicit OK status + body, status without trailer metadata, reset envelopes); the late-body vs '
+             'trailer schedule forced through the srv.writer.window gate; non-trivial = a handler returns or a raw '
+             'reply is injected',
+        nontrivial_ops=['ucall', 'sopen'],
+        assumptions=COMMON_ASSUMPTIONS,
+        models=[],
+    ),
     'C01': dict(
         rule='scenarios are generated per family (all handler-completion orders for k<=3/4 callers x delivery mode x '
              'transport encoding; staggered delivery; payload sizes 0..64KiB; wide runs up to 64 concurrent callers); '
